@@ -123,7 +123,7 @@ fn c13_one(idx: u64, st: &mut Stats) {
         }
         // through the raw constructor for every URI, through every builder on the sub-product
         let t = vmc::explore::unrank(idx, &uri::radices());
-        let sub = t[1] <= 2 && t[3] <= 1 && t[4] <= 2 && t[5] <= 2;
+        let sub = (t[1] <= 2 || t[1] == 6) && t[3] <= 1 && t[4] <= 2 && t[5] <= 2;
         let cons = constructors(&u);
         for (name, req) in cons.iter().take(if sub { cons.len() } else { 1 }) {
             let pu = printer_uri_of(req).ok_or_else(|| (format!("{}:missing", name), format!("{}: no printer-uri (uri syntax) in the request for {}", name, c.text)))?;
@@ -162,7 +162,7 @@ pub fn run_c13(ctx: &Ctx) -> ! {
     let mut rep = Report::new(
         ctx,
         "exploration",
-        "the complete D-uri product scheme{http,https,ipp,ipps} x user-info(6) x host(8: names, IPv4, bracketed IPv6 incl. zone) x port(7) x path(7) x query(5) = 47 040 target URIs, each through util::canonicalize_uri (+ idempotence) and IppRequestResponse::new, and a 4x3x8x2x3x3 sub-product through all 9 operation builders; the printer-uri value (in memory and as decoded from the encoded bytes by R1) is split by the string-level RFC 3986 splitter R3 and compared component-wise. distinct = URI index; non-trivial = accepted by http::Uri",
+        "the complete D-uri product scheme{http,https,ipp,ipps} x user-info(6) x host(8: names, IPv4, bracketed IPv6 incl. zone) x port(7) x path(7) x query(5) = 54 880 target URIs, each through util::canonicalize_uri (+ idempotence) and IppRequestResponse::new, and a 4x3x8x2x3x3 sub-product through all 9 operation builders; the printer-uri value (in memory and as decoded from the encoded bytes by R1) is split by the string-level RFC 3986 splitter R3 and compared component-wise. distinct = URI index; non-trivial = accepted by http::Uri",
     );
     rep.assume("a string http::Uri refuses to parse cannot be passed to the library and is outside the domain (counted in counters.rejected_by_http_uri)");
     if let Some(p) = &ctx.replay {
@@ -272,7 +272,7 @@ pub fn run_c14(ctx: &Ctx) -> ! {
     let mut rep = Report::new(
         ctx,
         "exploration",
-        "the complete D-uri product (47 040 target URIs, see C13) through the private URL mapper (cfg-guarded hook verif_transport_url); result split by the string-level splitter R3 and compared component-wise: ipp->http, ipps->https, http/https kept; port = given, else 631 for both ipp and ipps; host, user-info, path (\"\" = \"/\") and query unchanged. distinct = URI index; non-trivial = accepted by http::Uri",
+        "the complete D-uri product (54 880 target URIs, see C13) through the private URL mapper (cfg-guarded hook verif_transport_url); result split by the string-level splitter R3 and compared component-wise: ipp->http, ipps->https, http/https kept; port = given, else 631 for both ipp and ipps; host, user-info, path (\"\" = \"/\") and query unchanged. distinct = URI index; non-trivial = accepted by http::Uri",
     );
     rep.assume("hook verif_transport_url is a pure pass-through to ipp_uri_to_string (add-only, cfg(ipp_verif))");
     if let Some(p) = &ctx.replay {
@@ -298,6 +298,7 @@ fn check_table(
     st: &mut Stats,
     what: &str,
     table: reg::Table,
+    ext: reg::Table,
     complete: bool,
     domain: impl Iterator<Item = i64>,
     decode: impl Fn(i64) -> Option<(i64, String)>,
@@ -333,7 +334,7 @@ fn check_table(
             (None, Some((disc, ident))) => {
                 st.outcome("extension");
                 // a symbol the registry knows by name must carry the registry's code
-                if let Some(reg_code) = reg::lookup_name(table, ident) {
+                if let Some(reg_code) = reg::lookup_name(table, ident).or_else(|| reg::lookup_name(ext, ident)).filter(|rc| *rc as i64 != code) {
                     st.violate(
                         format!("{}:wrong-code-for-name", what),
                         format!("{} symbol {} has code {:#06x} in the library but {:#06x} in the registry", what, ident, code, reg_code),
@@ -358,15 +359,15 @@ pub fn run_c16(ctx: &Ctx) -> ! {
     );
     rep.assume("registry tables R2 in vmc::registry were typed in correctly from the RFCs");
     let mut st = Stats::new();
-    check_table(&mut st, "status", reg::STATUS, true, 0..=0xffff, |c| StatusCode::from_u16(c as u16).map(|s| (s as u16 as i64, format!("{:?}", s))));
-    check_table(&mut st, "operation", reg::OPERATIONS, false, 0..=0xffff, |c| Operation::from_u16(c as u16).map(|s| (s as u16 as i64, format!("{:?}", s))));
-    check_table(&mut st, "delimiter-tag", reg::DELIMITER_TAGS, false, 0..=0xff, |c| DelimiterTag::from_u8(c as u8).map(|s| (s as u8 as i64, format!("{:?}", s))));
-    check_table(&mut st, "value-tag", reg::VALUE_TAGS, false, 0..=0xff, |c| ValueTag::from_u8(c as u8).map(|s| (s as u8 as i64, format!("{:?}", s))));
-    check_table(&mut st, "printer-state", reg::PRINTER_STATE, false, -1..=300, |c| PrinterState::from_i32(c as i32).map(|s| (s as i32 as i64, format!("{:?}", s))));
-    check_table(&mut st, "job-state", reg::JOB_STATE, false, -1..=300, |c| JobState::from_i32(c as i32).map(|s| (s as i32 as i64, format!("{:?}", s))));
-    check_table(&mut st, "orientation", reg::ORIENTATION, false, -1..=300, |c| Orientation::from_i32(c as i32).map(|s| (s as i32 as i64, format!("{:?}", s))));
-    check_table(&mut st, "print-quality", reg::PRINT_QUALITY, false, -1..=300, |c| PrintQuality::from_i32(c as i32).map(|s| (s as i32 as i64, format!("{:?}", s))));
-    check_table(&mut st, "finishings", reg::FINISHINGS, false, -1..=300, |c| Finishings::from_i32(c as i32).map(|s| (s as i32 as i64, format!("{:?}", s))));
+    check_table(&mut st, "status", reg::STATUS, reg::STATUS_EXT, true, 0..=0xffff, |c| StatusCode::from_u16(c as u16).map(|s| (s as u16 as i64, format!("{:?}", s))));
+    check_table(&mut st, "operation", reg::OPERATIONS, reg::OPERATIONS_EXT, false, 0..=0xffff, |c| Operation::from_u16(c as u16).map(|s| (s as u16 as i64, format!("{:?}", s))));
+    check_table(&mut st, "delimiter-tag", reg::DELIMITER_TAGS, &[], false, 0..=0xff, |c| DelimiterTag::from_u8(c as u8).map(|s| (s as u8 as i64, format!("{:?}", s))));
+    check_table(&mut st, "value-tag", reg::VALUE_TAGS, &[], false, 0..=0xff, |c| ValueTag::from_u8(c as u8).map(|s| (s as u8 as i64, format!("{:?}", s))));
+    check_table(&mut st, "printer-state", reg::PRINTER_STATE, &[], false, -1..=300, |c| PrinterState::from_i32(c as i32).map(|s| (s as i32 as i64, format!("{:?}", s))));
+    check_table(&mut st, "job-state", reg::JOB_STATE, &[], false, -1..=300, |c| JobState::from_i32(c as i32).map(|s| (s as i32 as i64, format!("{:?}", s))));
+    check_table(&mut st, "orientation", reg::ORIENTATION, &[], false, -1..=300, |c| Orientation::from_i32(c as i32).map(|s| (s as i32 as i64, format!("{:?}", s))));
+    check_table(&mut st, "print-quality", reg::PRINT_QUALITY, &[], false, -1..=300, |c| PrintQuality::from_i32(c as i32).map(|s| (s as i32 as i64, format!("{:?}", s))));
+    check_table(&mut st, "finishings", reg::FINISHINGS, &[], false, -1..=300, |c| Finishings::from_i32(c as i32).map(|s| (s as i32 as i64, format!("{:?}", s))));
     // tables may be extended but the library's own symbols must exist in the registry where the
     // registry is the authority (the registry tables above are complete for the ranges the library
     // populates): a library symbol with no registry entry is reported only for status codes, where
